@@ -474,7 +474,15 @@ func (self *StateStore) ClearAll() error {
 		self.store.NewBatch() // reset the batch
 		return err
 	}
-	return self.store.BatchCommit()
+	if err := self.store.BatchCommit(); err != nil {
+		return err
+	}
+	// the in-memory accumulators were loaded from the data just deleted: restart them too,
+	// otherwise a re-executed genesis block is appended on top of the stale leaves
+	if self.merkleHashStore != nil {
+		self.merkleHashStore.Close()
+	}
+	return self.init(0)
 }
 
 //Close state store
